@@ -14,6 +14,14 @@ class KernUnsupported(Exception):
     pass
 
 
+class Ptr:
+    """pointer into a heap buffer: `next + remove_index`"""
+    __slots__ = ("buf", "off")
+
+    def __init__(self, buf, off):
+        self.buf, self.off = buf, off
+
+
 class _Break(Exception):
     pass
 
@@ -102,6 +110,8 @@ class Kern:
             raise KernUnsupported(f"member {e[2]} of a non-record value")
         if t == "index":
             base, i_ = self.ev(e[1]), self.ev(e[2])
+            if isinstance(base, Ptr) and isinstance(i_, int):
+                base, i_ = base.buf, base.off + i_
             if isinstance(base, list) and id(base) in self.heap_freed:
                 raise KernUnsupported("read of a freed buffer")
             if isinstance(base, (str, list)) and isinstance(i_, int):
@@ -131,6 +141,10 @@ class Kern:
             b_ = self.ev(e[1])
             if b_ is None:
                 return 0
+            if isinstance(b_, Ptr):
+                if b_.off != 0:
+                    raise KernUnsupported("delete[] of a pointer into the middle of a buffer")
+                b_ = b_.buf
             if not isinstance(b_, list):
                 raise KernUnsupported("delete of a non-buffer")
             if id(b_) in self.heap_freed:
@@ -226,6 +240,8 @@ class Kern:
     def _store(self, tgt, v):
         if tgt[0] == "index":
             base, i_ = self.ev(tgt[1]), self.ev(tgt[2])
+            if isinstance(base, Ptr) and isinstance(i_, int):
+                base, i_ = base.buf, base.off + i_
             if not isinstance(base, list) or not isinstance(i_, int):
                 raise KernUnsupported("store through a non-buffer")
             if id(base) in self.heap_freed:
@@ -248,6 +264,12 @@ class Kern:
     @staticmethod
     def arith(op, a, b):
         both_int = isinstance(a, int) and isinstance(b, int)
+        if op in ("+", "-") and isinstance(a, (list, Ptr)) and isinstance(b, int):
+            buf_, off_ = (a, 0) if isinstance(a, list) else (a.buf, a.off)
+            return Ptr(buf_, off_ + (b if op == "+" else -b))
+        if op == "+" and isinstance(b, (list, Ptr)) and isinstance(a, int):
+            buf_, off_ = (b, 0) if isinstance(b, list) else (b.buf, b.off)
+            return Ptr(buf_, off_ + a)
         if op in ("==", "!=") and (a is None or b is None or isinstance(a, (tuple, list)) or isinstance(b, (tuple, list))):
             same = (a is b) if isinstance(a, list) or isinstance(b, list) else (a == b)
             return int(same == (op == "=="))
